@@ -391,10 +391,21 @@ func runC14(c *Ctx) {
 		info := f.Info()
 		got := map[string]string{}
 		ast.Inspect(f.Body, func(n ast.Node) bool {
-			is, ok := n.(*ast.IfStmt)
-			if !ok {
+			// a table row is `if c&M == V { … }` or a clause `case c&M == V: …` of a tagless switch
+			var rowCond ast.Expr
+			var rowBody []ast.Stmt
+			switch x := n.(type) {
+			case *ast.IfStmt:
+				rowCond, rowBody = x.Cond, x.Body.List
+			case *ast.CaseClause:
+				if len(x.List) == 1 {
+					rowCond, rowBody = x.List[0], x.Body
+				}
+			}
+			if rowCond == nil {
 				return true
 			}
+			is := &ast.IfStmt{Cond: rowCond, Body: &ast.BlockStmt{List: rowBody}}
 			be, ok := ast.Unparen(is.Cond).(*ast.BinaryExpr)
 			if !ok || be.Op != token.EQL {
 				return true
@@ -413,10 +424,19 @@ func runC14(c *Ctx) {
 				switch x := st.(type) {
 				case *ast.BranchStmt:
 					act = x.Tok.String()
-				case *ast.AssignStmt:
-					act = core.ExprString(x.Rhs[0])
+				case *ast.AssignStmt, *ast.ReturnStmt:
+					var rhs []ast.Expr
+					if a, isA := x.(*ast.AssignStmt); isA {
+						rhs = a.Rhs
+					} else {
+						rhs = x.(*ast.ReturnStmt).Results
+					}
+					if len(rhs) != 1 {
+						continue
+					}
+					act = core.ExprString(rhs[0])
 					// normal form "i < K" for <loop variable> < K, K > i, i <= K-1
-					if cmp, isB := ast.Unparen(x.Rhs[0]).(*ast.BinaryExpr); isB && len(x.Rhs) == 1 {
+					if cmp, isB := ast.Unparen(rhs[0]).(*ast.BinaryExpr); isB {
 						if _, y, op, okO := core.Orient(cmp, func(e ast.Expr) bool { _, isID := ast.Unparen(e).(*ast.Ident); return isID }); okO {
 							if k, isC := core.ConstInt(info, y); isC {
 								switch op {
@@ -507,7 +527,27 @@ func runC14(c *Ctx) {
 				if !okO || op != token.LEQ {
 					return true
 				}
-				if p, isLen := isLenOf(info, y); !isLen || vid == nil || p.Root != info.Defs[vid] {
+				// the bound: len(stop), or min(len(stop), len(sequence)) — a prefix longer than the
+				// sequence cannot be its suffix — directly or through a local
+				isStopLen := func(e ast.Expr) bool {
+					p, isLen := isLenOf(info, e)
+					return isLen && vid != nil && p.Root == info.Defs[vid]
+				}
+				isSeqLen := func(e ast.Expr) bool {
+					p, isLen := isLenOf(info, e)
+					return isLen && p.Root == paramAt(f, 0)
+				}
+				bound := ast.Unparen(y)
+				if id, isId := bound.(*ast.Ident); isId {
+					if rhs, _, cnt := singleDef(info, rl.Stmt.Body, info.Uses[id]); cnt == 1 && rhs != nil {
+						bound = ast.Unparen(rhs)
+					}
+				}
+				okBound := isStopLen(bound)
+				if mc, isC := bound.(*ast.CallExpr); isC && core.CalleeName(info, mc) == "builtin.min" && len(mc.Args) == 2 {
+					okBound = (isStopLen(mc.Args[0]) && isSeqLen(mc.Args[1])) || (isStopLen(mc.Args[1]) && isSeqLen(mc.Args[0]))
+				}
+				if !okBound {
 					return true
 				}
 				for _, call := range core.CallsTo(info, fs.Body, false, "strings.HasSuffix") {
@@ -573,7 +613,48 @@ func runC14(c *Ctx) {
 				return true
 			})
 		}
-		c.Check("C14-R7", f.Key()+" cuts at the first occurrence of the stop", c.Pos(f.Decl), ok, "TruncateStop must keep joined[:strings.Index(joined, stop)]")
+		if !ok {
+			// the other spelling: a byte budget initialised with strings.Index(Join(pieces, ""), stop) that the
+			// loop over the pieces spends — the cut position is still the first occurrence
+			idx := g.FindCalls("strings.Index")
+			if len(idx) == 1 && len(g.FindCalls("strings.LastIndex")) == 0 {
+				call := idx[0].Node.(*ast.CallExpr)
+				iv := core.ResultVar(info, idx[0].Top, call, 0)
+				joinOK := false
+				for _, x := range expand(g, call.Args[0], 2) {
+					for _, j := range core.CallsTo(info, x, false, "strings.Join") {
+						if sv, isS := core.ConstString(info, j.Args[1]); isS && sv == "" && isIdentOf(info, j.Args[0], paramAt(f, 0)) {
+							joinOK = true
+						}
+					}
+				}
+				budget := false
+				if iv != nil {
+					for _, rl := range rangeLoops(f) {
+						if rl.Over != paramAt(f, 0) {
+							continue
+						}
+						// a local initialised from the index and decreased in the loop over the pieces
+						ast.Inspect(f.Body, func(n ast.Node) bool {
+							as, isA := n.(*ast.AssignStmt)
+							if !isA || as.Tok != token.DEFINE || len(as.Lhs) != 1 || len(as.Rhs) != 1 || !isIdentOf(info, as.Rhs[0], iv) {
+								return true
+							}
+							bo := info.Defs[as.Lhs[0].(*ast.Ident)]
+							ast.Inspect(rl.Stmt.Body, func(m ast.Node) bool {
+								if dec, isD := m.(*ast.AssignStmt); isD && dec.Tok == token.SUB_ASSIGN && isIdentOf(info, dec.Lhs[0], bo) {
+									budget = true
+								}
+								return true
+							})
+							return true
+						})
+					}
+				}
+				ok = joinOK && isIdentOf(info, call.Args[1], paramAt(f, 1)) && budget
+			}
+		}
+		c.Check("C14-R7", f.Key()+" cuts at the first occurrence of the stop", c.Pos(f.Decl), ok, "TruncateStop must keep joined[:strings.Index(joined, stop)] (or spend a byte budget of strings.Index(Join(pieces, \"\"), stop) over the pieces)")
 	}
 }
 
